@@ -1996,7 +1996,7 @@ def _(g):
 
 
 def _sum_holders(g):
-    kinds = ["tk", "s", "tsku"] if not g.thorough else ["tk", "s", "t", "k", "u", "tsku", "kk"]
+    kinds = ["tk", "s", "t", "tsku"] if not g.thorough else ["tk", "s", "t", "k", "u", "tsku", "kk"]
     shapes = [(2, 3, 2)] + ([(2, 3)] if g.thorough else [])
     for sh in shapes:
         for k in kinds:
